@@ -173,3 +173,36 @@ Definition locrib_view_limited (t : table) (m : N) (net : N) : list entry :=
 (* all paths of a prefix, eligible or not *)
 Definition entries_of (t : table) (net : N) : list entry :=
   match alookup net (t_dests t) with Some d => d_entries d | None => [] end.
+
+(* ---- Known finding C15-session-counter, as narrow as the defect: an operation
+   acting for one session of a peer (insert, withdrawal, purge carrying its
+   counter) touches a destination that holds a path of the same peer belonging
+   to another session, and session [c] is the acting session or the owner of
+   such a path. *)
+
+Definition foreign_in (tok addr c : N) (es : list entry) : bool :=
+  existsb (fun e => from_addr addr e && negb (from_tok tok e) && ((tok =? c) || from_tok c e)) es.
+
+Definition touch_event (c : N) (t : table) (o : op) : bool :=
+  match o with
+  | Insert s net _ _ _ _ _ _ => foreign_in (s_tok s) (s_addr s) c (entries_of t net)
+  | Remove s net rpid _ =>
+      match find (same_key s rpid) (entries_of t net) with
+      | Some _ => foreign_in (s_tok s) (s_addr s) c (entries_of t net)
+      | None => false
+      end
+  | Drop DKAll _ _ => false
+  | Drop k addr (Some tok) =>
+      existsb (fun nd => existsb (drop_sel (t_flags t) k addr) (d_entries (snd nd))
+                         && foreign_in tok addr c (d_entries (snd nd))) (t_dests t)
+  | _ => false
+  end.
+
+Fixpoint known_touch_from (c : N) (t : table) (ops : list op) : bool :=
+  match ops with
+  | [] => false
+  | o :: r => touch_event c t o || known_touch_from c (fst (fst (step t o))) r
+  end.
+
+Definition Known_C15_session_touch (c : N) (shard : N) (ops : list op) : Prop :=
+  known_touch_from c (empty_table shard) ops = true.
